@@ -21,6 +21,7 @@ from ..thir import callee_of
 from . import c05
 
 EXPR = "nodes::expressions::Expression"
+TRIVIA_PROCESSORS = ("RemoveCommentProcessor", "RemoveWhitespacesProcessor")
 PREFIX = "nodes::expressions::prefix::Prefix"
 
 
@@ -77,7 +78,11 @@ def dup(R, ctx):
             return Enum(EXPR, kind, {"0": make(lib, ID, {"name": "n_" + tag, "#tag": tag})})
         if kind == "Parenthese":
             return Enum(EXPR, kind, {"0": make(lib, PAR, {"expression": Enum(EXPR, "Call", {"0": Struct("#payload", {"#tag": tag})})})})
+        if kind in optional_payload:
+            # `Expression::True(Option<Token>)` and the like: an absent token that still carries the operand's tag
+            return Enum(EXPR, kind, {"0": Enum(peval.OPTION, "None", {"#tag": tag})})
         return Enum(EXPR, kind, {"0": Struct("#payload", {"#tag": tag})})
+    optional_payload = {v["name"] for v in lib.adts[EXPR]["variants"] if len(v["fields"]) == 1 and v["fields"][0].get("tys", "").startswith("core::option::Option<")}
     prefixes = [("Identifier", lambda: Enum(PREFIX, "Identifier", {"0": make(lib, ID, {"name": "t", "#tag": "P"})}), True)]
     for pv in [v["name"] for v in lib.adts[PREFIX]["variants"] if v["name"] not in ("Identifier", "Parenthese")]:
         prefixes.append((pv, (lambda pv=pv: Enum(PREFIX, pv, {"0": Struct("#payload", {"#tag": "P"})})), False))
@@ -86,9 +91,16 @@ def dup(R, ctx):
     dflt = lib.fn("<%s as core::default::Default>::default" % PROC)
     bad, unk, n = [], [], 0
 
+    def trivia_walk(pe_, path, fname, args, node):
+        # the copies of an operand are walked by the comment / whitespace clearing processors before they are written a second
+        # time; those walks only touch tokens (the operands here are opaque payloads without tokens) and are skipped
+        if fname.startswith("visit_") and any(isinstance(a, Struct) and a.adt.rsplit("::", 1)[-1] in TRIVIA_PROCESSORS for a in args):
+            return peval.UNIT
+        return NotImplemented
+
     def run_(variable, operands):
         st = Enum(STMT, "CompoundAssign", {"0": make(lib, CA, {"operator": Enum(COP, "Plus"), "variable": variable, "value": tagged("Call", "V")})})
-        pe = peval.PEval(lib, ctx.an)
+        pe = peval.PEval(lib, ctx.an, hook=trivia_walk)
         try:
             proc = pe.call_fn(dflt, []) if dflt is not None else make(lib, PROC)
             pe.call_fn(fn, [proc, st])
@@ -353,6 +365,145 @@ def repeat_scope(R, ctx):
         R.ob(rid, "%s|condition-handled-when-body-is-renested" % rule, (not renests) or mentions_cond, ctx.where(cands[-1]),
              "the RepeatStatement callback passes the body block to a re-nesting helper but never looks at the condition: after lowering, "
              "`until x` no longer sees `local x` declared in the body" if renests and not mentions_cond else "condition handled / body not re-nested")
+
+
+# ---------------------------------------------------------------------------------------------------------------
+# C06.continue: the whole remove_continue rule, evaluated on enumerated loop nests, against a reference semantics
+_CL = {}
+
+
+def _continue_specs(tier):
+    """body specifications: tuples of items; an item is 'A' (if c then continue end), 'B' (if d then break end), 'M' (a mark),
+    ('L', kind, body[, last]) a nested loop, ('F', body) a local function, ('FE', body) a function value, ('D', body) a do block;
+    a body may end with 'C' / 'K' (continue / break as its last statement)."""
+    kinds = ["while", "repeat", "numfor", "genfor"]
+    inner = [("M",), ("A", "M"), ("M", "C"), ("B", "M")] + ([("M", "A"), ("A", "B", "M"), ("A", "M", "C")] if tier == "thorough" else [])
+    nested = [("L", k, ib) for k in (kinds if tier == "thorough" else ["while", "repeat"]) for ib in inner]
+    wrap = [("F", (("L", "while", ("M",)),)), ("F", (("L", "genfor", ("A", "M")),)), ("FE", (("L", "while", ("M",)),)), ("FE", (("L", "repeat", ("A", "M")),)),
+            ("D", ("A", "M")), ("D", (("L", "while", ("M",)),)), ("F", ("M",))]
+    pool = ["A", "B", "M"] + nested + wrap
+    bodies = [(x,) for x in pool] + [(x, y) for x in pool for y in pool]
+    # length 3: a continue on both sides of every nested construct, and a trailing continue
+    bodies += [("A", x, "A") for x in nested + wrap] + [(x, "M", "C") for x in nested + wrap] + [("M", x, "C") for x in nested + wrap]
+    if tier == "thorough":
+        bodies += [(x, y, "A") for x in nested + wrap for y in nested + wrap]
+    progs = [(k, b) for k in kinds for b in bodies]
+    # two levels of wrapping around a loop with its own continue
+    progs += [(k, (("L", k2, ("A", ("L", k, ("M",)), "A")), "A")) for k in kinds for k2 in kinds]
+    return progs
+
+
+def _continue_build(B, spec, counter):
+    def fresh(p):
+        counter[0] += 1
+        return "%s%d" % (p, counter[0])
+
+    def body(items):
+        stmts, last = [], None
+        for it in items:
+            if it == "C":
+                last = B.cont()
+            elif it == "K":
+                last = B.brk()
+            elif it == "A":
+                stmts.append(B.if_(fresh("c"), B.block([], B.cont())))
+            elif it == "B":
+                stmts.append(B.if_(fresh("d"), B.block([], B.brk())))
+            elif it == "M":
+                stmts.append(B.mark(fresh("m")))
+            elif it[0] == "L":
+                stmts.append(B.loop(it[1], fresh("w"), body(it[2])))
+            elif it[0] == "F":
+                stmts.append(B.local_function(fresh("f"), body(it[1])))
+            elif it[0] == "FE":
+                stmts.append(B.local_value(fresh("g"), B.function_expr(body(it[1]))))
+            elif it[0] == "D":
+                stmts.append(B.do(body(it[1])))
+        return B.block(stmts, last)
+    kind, items = spec
+    return B.block([B.mark("start"), B.loop(kind, fresh("w"), body(items)), B.mark("end")])
+
+
+def _continue_chunk(specs):
+    import copy
+    import itertools
+    from .. import peval, astmodel
+    from ..peval import Ref
+    ctx, fn, rule_adt, nbits = _CL["ctx"], _CL["fn"], _CL["rule"], _CL["bits"]
+    lib = ctx.lib
+    B = astmodel.Builder(lib)
+    out = []
+    for spec in specs:
+        prog = _continue_build(B, spec, [0])
+        before = copy.deepcopy(prog)
+        pe = peval.PEval(lib, ctx.an, fuel=20000000, max_depth=120)
+        cell = {"v": prog}
+        why = None
+        try:
+            pe.call_fn(fn, [peval.make(lib, rule_adt), Ref(cell, "v"), peval.UNKNOWN])
+        except peval.OutOfFuel:
+            why = "not established: no termination"
+        after = cell["v"]
+        if why is None and astmodel.has_continue(after):
+            why = "a `continue` is left in the lowered program"
+        if why is None:
+            for bits in itertools.product((True, False), repeat=nbits):
+                try:
+                    t0 = astmodel.run_skeleton(before, bits)
+                except astmodel.Stuck as x:
+                    why = "reference semantics stuck on the INPUT (%s)" % x
+                    break
+                try:
+                    t1 = astmodel.run_skeleton(after, bits)
+                except astmodel.Stuck as x:
+                    t1 = ["stuck: %s" % x]
+                if t0 != t1:
+                    k = next((i for i, (a, b) in enumerate(zip(t0, t1)) if a != b), min(len(t0), len(t1)))
+                    why = "oracle %s: the program does %s, the lowered one %s (step %d)" % (
+                        "".join("T" if b else "F" for b in bits), " ".join(t0[max(0, k - 2):k + 2]), " ".join(t1[max(0, k - 2):k + 2]), k)
+                    break
+        if why is not None:
+            why += " | lowered: " + "; ".join(x.strip() for x in astmodel.show(after))[:400]
+        out.append((spec, why))
+    return out
+
+
+def continue_lowering(R, ctx):
+    rid = "C06.continue"
+    lib = ctx.lib
+    from .c15 import pmap
+    from .. import astmodel
+    nbits = 7
+    R.rule(rid, "the remove_continue rule, entered through its FlawlessRule::flawless_process and evaluated from its typed tree (visitor walk, "
+                "loop stack and re-nesting included) on every enumerated loop nest: four loop kinds x bodies of up to three items out of "
+                "`if c then continue end`, `if d then break end`, a call, nested loops with and without their own continue / break, loops inside "
+                "local functions and function values, do blocks, a trailing `continue`. The lowered tree contains no `continue`, and for every "
+                "oracle of %d condition outcomes it is observationally equal (same calls, same condition evaluations, same order) to the "
+                "original under an independent reference semantics of Lua/Luau control flow (sa/astmodel.py): a lowered `continue` that leaves "
+                "the real loop, skips the rest of an iteration it should not, or pairs with another loop's flag changes the trace" % nbits)
+    fn = lib.fn("<rules::remove_continue::RemoveContinue as rules::FlawlessRule>::flawless_process")
+    if fn is None:
+        c = [f for k, f in lib.fns.items() if k.endswith("as rules::FlawlessRule>::flawless_process") and "remove_continue" in k]
+        fn = c[0] if len(c) == 1 else None
+    B = astmodel.Builder(lib)
+    if not R.require(rid, "anchor:rule", fn is not None and thir.body_of(fn) is not None and not B.missing, "", "remove_continue's flawless_process / AST types: %s" % (B.missing or "found")):
+        return
+    rule_adt = fn["path"].split(" as ")[0][1:]
+    specs = _continue_specs(R.tier)
+    _CL.update(ctx=ctx, fn=fn, rule=rule_adt, bits=nbits)
+    chunks = [specs[k:k + 24] for k in range(0, len(specs), 24)]
+    n, bad = 0, {}
+    for res in pmap(_continue_chunk, chunks):
+        for spec, why in res:
+            n += 1
+            if why is not None:
+                bad.setdefault(spec[0], []).append((spec, why))
+    for kind in ("while", "repeat", "numfor", "genfor"):
+        b = bad.get(kind, [])
+        R.ob(rid, "remove_continue|%s|observationally-equal" % kind, not b, ctx.where(fn),
+             "every loop nest keeps its trace" if not b else "%d nests differ; first: %s: %s" % (len(b), b[0][0][1], b[0][1]))
+    R.require(rid, "floor", n >= 1500, ctx.where(fn), "%d loop nests x %d oracles" % (n, 2 ** nbits))
+    R.meta[rid] = {"programs": n, "oracles_per_program": 2 ** nbits}
 
 
 def format_specifier(R, ctx, rid="C06.tostring", rid_removed=None):
@@ -629,7 +780,9 @@ def run(R, ctx):
         "for right-nested chains, conservative treatment of unknown truthiness, collision-checked temporaries. Behavioural equivalence "
         "itself (e.g. `continue` lowering inside repeat-until) is not decided. Decision / transfer functions among these are decided by finite-domain evaluation of their typed tree (sa/peval.py): every point of a small abstract domain is evaluated and compared with the reference; nothing is sampled and no program input exists."
     )
-    R.assumptions += ["Evaluator::has_side_effects / can_return_multiple_values are trusted as analyses (tables checked under C08)"]
+    R.assumptions += ["Evaluator::has_side_effects / can_return_multiple_values are trusted as analyses (tables checked under C08)",
+                      "C06.dup: the walks of the comment / whitespace clearing processors over operand copies only touch tokens (skipped; operands are opaque)",
+                      "C06.continue: reference semantics of Lua/Luau control flow as written in sa/astmodel.py (a function definition is observed once, on the spot)"]
     dup(R, ctx)
     c05.shadow_rule(R, ctx, "C06.shadow", ("rules::remove_floor_division::RemoveFloorDivisionProcessor", "rules::remove_interpolated_string::RemoveInterpolatedStringProcessor", "rules::remove_compound_assign::Processor"), "lowering")
     hoist(R, ctx)
@@ -637,6 +790,7 @@ def run(R, ctx):
     box(R, ctx)
     fresh(R, ctx)
     repeat_scope(R, ctx)
+    continue_lowering(R, ctx)
     format_specifier(R, ctx)
     sticky_capture_flags(R, ctx)
     branch_order(R, ctx)
